@@ -1,10 +1,4 @@
 #!/bin/bash
-# quick look: apply a patch to the scratch worktree /tmp/repo_clean (NOT /repo) and run the given checks against it
+# quick look: run the given checks against a seeded change (in a scratch worktree and a private copy of /verif: tools/seedtest.py)
 P=$1; shift
-cd /tmp/repo_clean && git checkout -q -- . && git apply "$P" || { echo "patch does not apply"; exit 2; }
-cd /verif
-for c in "$@"; do
-  r=$(WENCRY_REPO=/tmp/repo_clean python3 check.py $c quick 2>&1 | grep -E "^OK|^VIOL" | head -1 | cut -c1-90)
-  echo "  $c: $r"
-done
-cd /tmp/repo_clean && git checkout -q -- .
+python3 /verif/tools/seedtest.py "$P" "$@" | grep -E "^C[0-9]+ " | cut -c1-200
